@@ -513,3 +513,46 @@ Proof.
   exists i1, i2, i3. repeat split; auto.
   rewrite !lenN_app, hs_c1s1_len by auto. unfold hs_c2s2. rewrite (lenN_length s1), Hs. reflexivity.
 Qed.
+
+(* ---------- the writer terminates: with a positive chunk size the chunk loop never spins ---------- *)
+Lemma write_chunks_ok : forall fuel c h h3 (p : bytes), 0 < c -> (length p <= fuel)%nat ->
+  exists w, write_chunks fuel c h h3 p = Ok w.
+Proof.
+  induction fuel as [|f IH]; intros c h h3 p Hc Hl.
+  - destruct p; [exists []; reflexivity|cbn in Hl; lia].
+  - destruct p as [|p0 p']; [exists []; reflexivity|].
+    rewrite write_chunks_S by congruence.
+    destruct (IH c h3 h3 (skipn (N.to_nat c) (p0 :: p')) Hc) as (w & Hw).
+    + rewrite skipn_length. cbn [length] in *. lia.
+    + rewrite Hw. cbn [bind]. eauto.
+Qed.
+
+Theorem write_message_total c m : 0 < c ->
+  write_message c m = Err E_CID \/ exists w c', write_message c m = Ok (w, c') /\ 0 < c'.
+Proof.
+  intros Hc. unfold write_message, c0_header, c3_header.
+  destruct (basic_header F0 (m_cid m)) as [bh0|e|p] eqn:E0; cbn [bind].
+  - destruct (basic_header F3 (m_cid m)) as [bh3|e|p] eqn:E3; cbn [bind].
+    + match goal with |- context [write_chunks ?f ?c ?h ?h3 ?p] =>
+        destruct (write_chunks_ok f c h h3 p Hc) as (w & Hw); [lia|rewrite Hw] end.
+      cbn [bind]. right. eexists. eexists. split; [reflexivity|].
+      unfold on_message_written. destruct (m_type m =? MT_SCS); [|exact Hc].
+      destruct (m_payload m) as [|a [|b [|c' [|d l]]]]; try exact Hc.
+      destruct (N.ltb_spec 0 (ube4 a b c' d)); [assumption|exact Hc].
+    + unfold basic_header in *.
+      destruct ((2 <=? m_cid m) && (m_cid m <=? 63)); [discriminate|].
+      destruct ((64 <=? m_cid m) && (m_cid m <=? 319)); [discriminate|].
+      destruct ((320 <=? m_cid m) && (m_cid m <=? 65599)); discriminate.
+    + unfold basic_header in E3.
+      destruct ((2 <=? m_cid m) && (m_cid m <=? 63)); [discriminate|].
+      destruct ((64 <=? m_cid m) && (m_cid m <=? 319)); [discriminate|].
+      destruct ((320 <=? m_cid m) && (m_cid m <=? 65599)); discriminate.
+  - left. unfold basic_header in E0.
+    destruct ((2 <=? m_cid m) && (m_cid m <=? 63)); [discriminate|].
+    destruct ((64 <=? m_cid m) && (m_cid m <=? 319)); [discriminate|].
+    destruct ((320 <=? m_cid m) && (m_cid m <=? 65599)); [discriminate|]. now inversion E0.
+  - unfold basic_header in E0.
+    destruct ((2 <=? m_cid m) && (m_cid m <=? 63)); [discriminate|].
+    destruct ((64 <=? m_cid m) && (m_cid m <=? 319)); [discriminate|].
+    destruct ((320 <=? m_cid m) && (m_cid m <=? 65599)); discriminate.
+Qed.
